@@ -23,12 +23,39 @@ K("awkward_reduce_count_64",
   loops=FOLD_LOOPS, ensures_ok=FOLD_POST,
   serves=["C03", "C12", "C13"])
 
+# The fold STEP of sum and prod, stated from the property (C03: "the fold, in element order, over exactly the elements
+# of the group; an empty group yields the identity"): the init loop stores the identity, and every store of the fold
+# loop goes to the element's own group and writes exactly  old value (+|*) element  -- for the signed-integer and the
+# floating-point instantiations (floating-point + and * are the uninterpreted operators of the encoding, so a step that
+# skips or reorders an operation, e.g. `if (acc != 0) acc *= x`, is not this step: 0 * inf is not 0).  The unsigned
+# instantiations wrap modulo 2^w and stay pinned to the definition by E.
+def STEP(op, ident):
+    return {"toptr@L0": ["at == i", "value == %s" % ident],
+            "toptr@L1": ["at == parents[i]", "value == toptr[parents[i]] %s fromptr[i]" % op]}
+
+
+SIGNED_OR_FLOAT = ["_int32_int", "_int64_int", "_float32_float32", "_float64_float64"]
+
+
+# ... and the whole fold for the floating-point instantiations (a store assertion cannot see a store that is skipped):
+# flt_G(p, n) is the fold of the first n elements restricted to group p, a floating-point valued ghost
+def FLTFOLD(op, ident):
+    return {"ghost": {"flt_G": (["p", "n"], None)},
+            "axioms": ["forall(p, 0, outlength, flt_G(p, 0) == %s)" % ident,
+                       "forall(p, 0, outlength, forall(n, 0, lenparents, flt_G(p, n + 1) == ite(parents[n] == p, flt_G(p, n) %s fromptr[n], flt_G(p, n))))" % op],
+            "loops": {"L0": ["0 <= i", "forall(p, 0, i, toptr[p] == %s)" % ident],
+                      "L1": ["0 <= i", "i <= lenparents", "forall(p, 0, outlength, toptr[p] == flt_G(p, i))"]},
+            "ensures_ok": ["forall(p, 0, outlength, toptr[p] == flt_G(p, lenparents))"],
+            "store_asserts": STEP(op, ident)}
+
 K("awkward_reduce_sum",
   extents={"toptr": "outlength", "fromptr": "lenparents", "parents": "lenparents"},
   requires=[PARENTS],
   # the 64-bit signed integer sums (mathematical integers): sum of the group's elements
-  per_spec={"reduce_sum_int64_int": {"ghost": {"G": (["p", "n"], None)}, "axioms": FOLD("fromptr[n]"),
-                                     "loops": FOLD_LOOPS, "ensures_ok": FOLD_POST}},
+  per_spec=dict([("reduce_sum_int64_int", {"ghost": {"G": (["p", "n"], None)}, "axioms": FOLD("fromptr[n]"),
+                                           "loops": FOLD_LOOPS, "ensures_ok": FOLD_POST})]
+                + [("reduce_sum_int32_int", {"store_asserts": STEP("+", "0")})]
+                + [("reduce_sum" + t, FLTFOLD("+", "0")) for t in ("_float32_float32", "_float64_float64")]),
   serves=["C03", "C12", "C13"])
 
 K("awkward_reduce_countnonzero",
@@ -43,6 +70,8 @@ K("awkward_reduce_countnonzero",
 K("awkward_reduce_prod",
   extents={"toptr": "outlength", "fromptr": "lenparents", "parents": "lenparents"},
   requires=[PARENTS],
+  per_spec=dict([("reduce_prod" + t, {"store_asserts": STEP("*", "1")}) for t in ("_int32_int", "_int64_int")]
+                + [("reduce_prod" + t, FLTFOLD("*", "1")) for t in ("_float32_float32", "_float64_float64")]),
   serves=["C03", "C12", "C13"])
 
 # product of booleans counted as integers (C03): 1 exactly when no element of the group is False
@@ -100,10 +129,19 @@ for name, hit, hitv, initv in [("awkward_reduce_sum_bool", "!=", "1", "0"), ("aw
       per_spec={"_int": spec_, "_uint": spec_, "_bool_bool": spec_},
       serves=["C03", "C12", "C13"])
 
-for name in ["awkward_reduce_countnonzero_complex", "awkward_reduce_sum_complex", "awkward_reduce_prod_complex",
+# complex sum: real and imaginary parts are summed separately, each into its own slot of the element's group
+K("awkward_reduce_sum_complex",
+  extents={"toptr": "outlength * 2", "fromptr": "lenparents * 2", "parents": "lenparents"},
+  requires=[PARENTS],
+  store_asserts={"toptr@L0": ["at == i * 2 or at == i * 2 + 1", "value == 0"],
+                 "toptr@L1": ["at == parents[i] * 2 or at == parents[i] * 2 + 1",
+                              "value == toptr[at] + fromptr[i * 2 + (at - parents[i] * 2)]"]},
+  serves=["C03", "C12", "C13"])
+
+for name in ["awkward_reduce_countnonzero_complex", "awkward_reduce_prod_complex",
              "awkward_reduce_sum_bool_complex", "awkward_reduce_prod_bool_complex",
              "awkward_reduce_min_complex", "awkward_reduce_max_complex"]:
-    two = name in ("awkward_reduce_sum_complex", "awkward_reduce_prod_complex", "awkward_reduce_min_complex", "awkward_reduce_max_complex")
+    two = name in ("awkward_reduce_prod_complex", "awkward_reduce_min_complex", "awkward_reduce_max_complex")
     K(name,
       extents={"toptr": "outlength * 2" if two else "outlength", "fromptr": "lenparents * 2", "parents": "lenparents"},
       requires=[PARENTS],
